@@ -13,6 +13,7 @@
 //!   grant|revoke sid now user K|A|T<r>
 //!   create sid now caller id r prog numAcc dataLen dataHex signers metas…   (meta = a<i>:<w> | w<r>:<w>)
 //!   approve sid now caller id r
+//!   approveb sid now caller r id1,id2,…|-      (the BATCH instruction `approve_instructions`, buffers as remaining accounts)
 //!   cancel  sid now caller id r rrUser
 //!   exec    sid now caller id r rrUser
 //!   delay   sid now caller delta
@@ -133,17 +134,25 @@ impl Acc {
 
 /// Runs the timelock entrypoint; returns (result, per-account (owner, lamports, data) afterwards).
 fn call_entry(accs: &mut [Acc], data: &[u8]) -> (bool, Vec<(Pubkey, u64, Vec<u8>)>) {
-    let infos: Vec<AccountInfo> = accs.iter_mut().map(|a| {
+    let order: Vec<usize> = (0..accs.len()).collect();
+    call_entry_order(accs, &order, data)
+}
+
+/// as `call_entry`, passing the accounts in `order` (an index may repeat: the same account listed twice shares its
+/// data, as in the runtime); the returned vector is per DISTINCT account.
+fn call_entry_order(accs: &mut [Acc], order: &[usize], data: &[u8]) -> (bool, Vec<(Pubkey, u64, Vec<u8>)>) {
+    let distinct: Vec<AccountInfo> = accs.iter_mut().map(|a| {
         let d = &mut bytemuck::cast_slice_mut::<u128, u8>(&mut a.buf)[8..8 + a.len];
         AccountInfo::new(&a.key.key, a.signer, a.writable, &mut a.lamports, d, &a.owner, a.exec, 0)
     }).collect();
+    let infos: Vec<AccountInfo> = order.iter().map(|i| distinct[*i].clone()).collect();
     fn go<'a>(infos: &[AccountInfo<'a>], data: &[u8]) -> anchor_lang::solana_program::entrypoint::ProgramResult {
         let infos: &'a [AccountInfo<'a>] = unsafe { std::mem::transmute(infos) };
         let _q = Quiet::new();
         tl::entry(&tl::ID, infos, data)
     }
     let r = go(&infos, data);
-    let after = infos.iter().map(|i| (*i.owner, i.lamports(), i.data.borrow().to_vec())).collect();
+    let after = distinct.iter().map(|i| (*i.owner, i.lamports(), i.data.borrow().to_vec())).collect();
     (r.is_ok(), after)
 }
 
@@ -178,7 +187,9 @@ fn consts() -> Consts {
     Consts { store_key, cfg_key, exec, f_store, f_cfg_key, f_exec }
 }
 
-struct World { store: Box<Store>, cfg: TimelockConfig, bufs: BTreeMap<u8, Vec<u8>> }
+/// `ghost[id]` = at the moment buffer `id` was approved, did the approver hold the timelocked role of the executor the
+/// buffer belongs to (read from the buffer, not from the call)?
+struct World { store: Box<Store>, cfg: TimelockConfig, bufs: BTreeMap<u8, Vec<u8>>, ghost: BTreeMap<u8, bool> }
 
 fn role_name(tok: &str) -> Option<String> {
     match tok {
@@ -283,6 +294,26 @@ fn rebind_buffer(c: &Consts, r: usize, bytes: &[u8]) -> Vec<u8> {
     b
 }
 
+/// the role whose executor the buffer is bound to (from the buffer's own header)
+fn own_role(c: &Consts, bytes: &[u8]) -> Option<usize> {
+    let hsz = std::mem::size_of::<InstructionHeader>();
+    let h: &InstructionHeader = bytemuck::from_bytes(&bytes[8..8 + hsz]);
+    (0..3).find(|r| c.exec[*r].0 == *h.executor())
+}
+
+/// property oracle for ONE successful approval (single or batch) of buffer `id`; records the ghost
+fn approval_oracle(c: &Consts, w: &mut World, id: u8, caller: u8, before: &[u8], after: &[u8], req: &str, out: &mut Out) {
+    let hsz = std::mem::size_of::<InstructionHeader>();
+    let h0: InstructionHeader = *bytemuck::from_bytes(&before[8..8 + hsz]);
+    let h1: InstructionHeader = *bytemuck::from_bytes(&after[8..8 + hsz]);
+    if h0.is_approved() || h0.apporver().is_some() { out.oracle_fail("an already approved buffer was approved again", req); }
+    if !h1.is_approved() || h1.apporver() != Some(&user_key(caller)) || h1.approved_at() != Some(NOW.load(Ordering::SeqCst)) { out.oracle_fail("approval did not record the caller and the clock", req); }
+    let held = match own_role(c, before) { Some(r) => w.store.has_role(&user_key(caller), &tl::roles::timelocked_role(ROLES[r])).unwrap_or(false), None => false };
+    if !held { out.oracle_fail("approved by an address that does not hold the timelocked role of the buffer's own executor", req); }
+    if before[8 + hsz..] != after[8 + hsz..] || h0.executor() != h1.executor() || h0.rent_receiver() != h1.rent_receiver() { out.oracle_fail("approval changed the buffered instruction", req); }
+    w.ghost.insert(id, held);
+}
+
 fn parse<T: std::str::FromStr>(t: &[&str], i: usize) -> Option<T> { t.get(i)?.parse().ok() }
 
 fn exec(c: &Consts, ws: &mut BTreeMap<String, World>, req: &str, out: &mut Out) -> (String, bool) {
@@ -301,7 +332,7 @@ fn exec(c: &Consts, ws: &mut BTreeMap<String, World>, req: &str, out: &mut Out) 
         for r in ["K", "A", "T0", "T1", "T2"] { store.enable_role(&role_name(r).unwrap()).unwrap(); }
         let mut cfg: TimelockConfig = Zeroable::zeroed();
         hook::timelock_config_init(&mut cfg, 255, delay, c.store_key);
-        let w = World { store, cfg, bufs: BTreeMap::new() };
+        let w = World { store, cfg, bufs: BTreeMap::new(), ghost: BTreeMap::new() };
         let d = digest(c, &w);
         ws.insert(sid, w);
         return (format!("ok | {d}"), false);
@@ -341,6 +372,7 @@ fn exec(c: &Consts, ws: &mut BTreeMap<String, World>, req: &str, out: &mut Out) 
             let (ok, after) = call_entry(&mut accs, &ixd);
             if ok {
                 w.bufs.insert(id, after[3].2.clone());
+                w.ghost.remove(&id);
                 // ---- property oracle: what is stored is what was asked for; only the wallet may sign
                 let bytes = &w.bufs[&id];
                 let ix = BufView { bytes, hsz: std::mem::size_of::<InstructionHeader>() }.to_instruction(false).unwrap();
@@ -365,14 +397,43 @@ fn exec(c: &Consts, ws: &mut BTreeMap<String, World>, req: &str, out: &mut Out) 
             let (ok, after) = call_entry(&mut accs, &ixd);
             if ok {
                 let b = before.unwrap();
-                let hsz = std::mem::size_of::<InstructionHeader>();
-                let h0: InstructionHeader = *bytemuck::from_bytes(&b[8..8 + hsz]);
-                if h0.is_approved() || h0.apporver().is_some() { out.oracle_fail("an already approved buffer was approved again", req); }
-                if !w.store.has_role(&user_key(caller), &tl::roles::timelocked_role(ROLES[r])).unwrap_or(false) { out.oracle_fail("approved by an address without the timelocked role", req); }
-                if b[8 + hsz..] != after[3].2[8 + hsz..] { out.oracle_fail("approval changed the buffered instruction", req); }
+                if !w.store.has_role(&user_key(caller), &tl::roles::timelocked_role(ROLES[r])).unwrap_or(false) { out.oracle_fail("approved by an address without the timelocked role named in the call", req); }
+                approval_oracle(c, w, id, caller, &b, &after[3].2, req, out);
                 w.bufs.insert(id, after[3].2.clone());
             }
             (format!("{} | {}", if ok { "ok" } else { "err" }, digest(c, w)), ok)
+        }
+        "approveb" => {
+            // the real batch instruction; all-or-nothing (a failing buffer aborts the transaction)
+            let (Some(caller), Some(r), Some(idt)) = (parse::<u8>(&t, 4), parse::<usize>(&t, 5), t.get(6)) else { return bad() };
+            if t.len() != 7 || caller >= 6 || r >= 3 { return bad(); }
+            let ids: Vec<u8> = if *idt == "-" { vec![] } else { match idt.split(',').map(|x| if x.bytes().all(|b| b.is_ascii_digit()) { x.parse::<u8>().ok() } else { None }).collect::<Option<Vec<u8>>>() { Some(v) => v, None => return bad() } };
+            if ids.len() > 10 || ids.iter().any(|i| *i >= 10) { return bad(); }
+            let (auth, store, sprog) = base_accounts(c, w, caller);
+            let mut accs = vec![auth, store, executor_acc(c, r), sprog];
+            let mut order: Vec<usize> = (0..4).collect();
+            let mut pos: BTreeMap<u8, usize> = BTreeMap::new();
+            for id in &ids {
+                let at = *pos.entry(*id).or_insert_with(|| {
+                    accs.push(match w.bufs.get(id) { Some(b) => Acc::new(buf_key(*id), tl::ID, b).writable(), None => Acc::new(buf_key(*id), sys, &[]).writable().lamports(0) });
+                    accs.len() - 1
+                });
+                order.push(at);
+            }
+            let ixd = tl::instruction::ApproveInstructions { role: ROLES[r].to_string() }.data();
+            let (ok, after) = call_entry_order(&mut accs, &order, &ixd);
+            if ok {
+                if !w.store.has_role(&user_key(caller), &tl::roles::timelocked_role(ROLES[r])).unwrap_or(false) { out.oracle_fail("batch approved by an address without the timelocked role named in the call", req); }
+                for (id, at) in &pos {
+                    match w.bufs.get(id).cloned() {
+                        Some(b) => { approval_oracle(c, w, *id, caller, &b, &after[*at].2, req, out); w.bufs.insert(*id, after[*at].2.clone()); }
+                        None => out.oracle_fail("a batch approval succeeded on a missing buffer", req),
+                    }
+                }
+                if pos.len() != ids.len() { out.oracle_fail("a batch listing a buffer twice succeeded", req); }
+                out.stat(&format!("approveb.ok.n{}", ids.len().min(3)));
+            }
+            (format!("{} | {}", if ok { "ok" } else { "err" }, digest(c, w)), ok && !ids.is_empty())
         }
         // ---- account-binding sweep: the same instructions with an account that belongs to ANOTHER store.
         //      `execf … cfg` passes the foreign store's TimelockConfig (delay 0); `execf … exe`, `approvef`, `cancelf`
@@ -463,8 +524,10 @@ fn exec(c: &Consts, ws: &mut BTreeMap<String, World>, req: &str, out: &mut Out) 
             let b = before.expect("closed a missing buffer");
             if after_buf.0 != sys || !after_buf.2.is_empty() || after_buf.1 != 0 { out.oracle_fail("the buffer account was not closed", req); }
             w.bufs.remove(&id);
+            let ghost = w.ghost.remove(&id);
             if is_exec {
                 // ---- property oracle for execution
+                if ghost != Some(true) { out.oracle_fail("executed although the approver did not hold the timelocked role of the buffer's executor when approving", req); }
                 let hsz = std::mem::size_of::<InstructionHeader>();
                 let h: InstructionHeader = *bytemuck::from_bytes(&b[8..8 + hsz]);
                 match (h.approved_at(), h.apporver()) {
@@ -573,7 +636,7 @@ fn gen_next(r: &mut Rng, c: &Consts, ws: &BTreeMap<String, World>, g: &mut Gen, 
             _ => return format!("tl delayf {sid} {} {} {}", g.now, pick(r, &admins, 1), r.range(1, 300)),
         }
     }
-    match r.below(12) {
+    match r.below(14) {
         0 | 1 | 2 => {
             let id = if r.chance(9, 10) { (0..10u8).find(|i| !open.iter().any(|o| o.0 == *i)).unwrap_or(r.below(10) as u8) } else { r.below(10) as u8 };
             let role = r.below(3) as usize;
@@ -626,6 +689,46 @@ fn gen_next(r: &mut Rng, c: &Consts, ws: &BTreeMap<String, World>, g: &mut Gen, 
             let mut caller = pick(r, &admins, 1);
             if caller == rr { caller = *admins.iter().find(|k| **k != rr).unwrap_or(&((rr + 1) % 6)); }
             format!("tl cancel {sid} {} {caller} {id} {role} {rr}", g.now)
+        }
+        12 | 13 => {
+            // BATCH approval through the executor of role `role`: same-executor batches, MIXED batches (buffers of another
+            // role's executor), already approved / missing buffers, a buffer listed twice, the empty batch
+            let unapproved: Vec<_> = open.iter().filter(|o| o.2.is_none()).collect();
+            let role = if !unapproved.is_empty() && r.chance(5, 6) { unapproved[r.below(unapproved.len() as u64) as usize].1 } else { r.below(3) as usize };
+            let hs = holders(w, &tl::roles::timelocked_role(ROLES[role]));
+            let caller = pick(r, &hs, 2);
+            let mut ids: Vec<u8> = unapproved.iter().filter(|o| o.1 == role && r.chance(4, 5)).map(|o| o.0).collect();
+            let foreign: Vec<u8> = unapproved.iter().filter(|o| o.1 != role).map(|o| o.0).collect();
+            let mut mixed: Option<(u8, usize)> = None;
+            if !foreign.is_empty() && r.chance(2, 5) {
+                let f = foreign[r.below(foreign.len() as u64) as usize];
+                mixed = Some((f, open.iter().find(|o| o.0 == f).unwrap().1));
+                if r.chance(1, 2) { ids.push(f) } else { ids.insert(0, f) }
+            }
+            match r.below(16) {
+                0 => { if let Some(o) = open.iter().find(|o| o.2.is_some()) { ids.push(o.0); } }     // already approved
+                1 => ids.push((0..10u8).find(|i| !open.iter().any(|o| o.0 == *i)).unwrap_or(9)),    // missing
+                2 => { if let Some(x) = ids.first().copied() { ids.push(x); } }                      // listed twice
+                3 => ids.clear(),
+                _ => {}
+            }
+            ids.truncate(10);
+            let req = format!("tl approveb {sid} {} {caller} {role} {}", g.now, if ids.is_empty() { "-".to_string() } else { ids.iter().map(|i| i.to_string()).collect::<Vec<_>>().join(",") });
+            // the grant-later pattern: after a mixed batch, the approver is granted the OTHER role's timelocked role and the
+            // foreign buffer is executed once the delay has passed (must not run: it was never validly approved)
+            if let Some((f, frole)) = mixed {
+                let d = w.cfg.delay() as i64;
+                if d < 100_000 && r.chance(3, 4) {
+                    let o = open.iter().find(|o| o.0 == f).unwrap();
+                    let t1 = g.now.saturating_add(d).saturating_add(r.below(3) as i64);
+                    let mut keeper = pick(r, &keepers, 0);
+                    if keeper == o.4 { keeper = *keepers.iter().find(|k| **k != o.4).unwrap_or(&((o.4 + 1) % 6)); }
+                    setup.push(format!("tl exec {sid} {t1} {keeper} {f} {frole} {}", o.4));
+                    setup.push(format!("tl grant {sid} {} {caller} T{frole}", g.now));
+                    g.now = t1;
+                }
+            }
+            req
         }
         10 => {
             let delta: u32 = match r.below(14) { 0 => 0, 1 => u32::MAX, _ => r.range(1, 300) as u32 };
